@@ -29,3 +29,30 @@ def __getattr__(name):
 
 def is_sub(obj):
     return type(obj).__module__ == __name__
+
+
+def _labelled_length():
+    from BTrees.Length import Length
+
+    class LabelledLength(Length):
+        """a Length subclass whose constructor does not take the value as
+        its first positional argument (what applications do to counters)"""
+
+        def __init__(self, label="", v=0):
+            Length.__init__(self, v)
+            self.label = label
+    LabelledLength.__module__ = __name__
+    LabelledLength.__qualname__ = "LabelledLength"
+    return LabelledLength
+
+
+_orig_getattr = __getattr__
+
+
+def __getattr__(name):      # noqa: F811
+    if name == "LabelledLength":
+        cls = _made.get(name)
+        if cls is None:
+            cls = _made[name] = _labelled_length()
+        return cls
+    return _orig_getattr(name)
